@@ -7,14 +7,14 @@ BASE_NOTE = ("Trusted: Coq 8.16.1 kernel (+vm_compute for finite sweeps), ExtrOc
              "(differential, generated cases) and a regenerated constants file; ")
 CLAIMED = {
  "C01": dict(
-   text="Hand-written executable Gallina model of the whole optimisation pipeline (from_slice, all reductions incl. palette sorters, perform_reductions, evaluator, perform_trials, optimize_raw/png, output), replayed against the real code on every run under the recorded zlib oracle: byte-identical outputs, and no compressor call the model does not predict. Machine-checked theorems (Properties/C01.v): (1) per-pixel exactness of the sample mappings; (2) IMAGE LEVEL, every width/height/interlacing: 16->8, sub-byte expansion and reduction, RGB(A)->gray(A), alpha removal, ->indexed, indexed->channels, palette condensation, luma sort, palette reorders covering the used indices, the two co-occurrence palette sorters mzeng and battiato (connectivity of the co-occurrence graph; vertex colouring with a history argument over the complete edge list), Adam7 interlacing AND de-interlacing (the pass/row state machine of src/interlace.rs, bits and bytes variants) each keep a well-formed image at its meaning (Spec/Sem); PngImage::new's image means what the specification decodes from the IDAT stream (C01_parsed_image_means); (3) PIPELINE: perform_reductions keeps the baseline and every candidate, optimize_raw's choice, the filtered stream behind the emitted IDAT (all ten strategies) and finally the BYTES WRITTEN (decoded by the specification's whole-file decoder Spec/DecodeFile: strict container, IHDR, PLTE/tRNS, inflate, un-filtering, Adam7, colour) at the picture the input image means; (4) FILE TO FILE: from_slice reads a valid datastream the way the specification's whole-file decoder does (C01_input_parse_means) and optimize_from_memory returns the input bytes or a serialisation that the specification decodes to the INPUT FILE's picture (C01_file_to_file_partial) - for every option vector with the lossy switches off, every compressor, evaluator schedule and clock. Nothing is assumed about the reductions. Every image any reduction produces and every output file (also after 2-3 chained runs) is additionally decoded by the extracted specification and compared with the input at 16-bit RGBA.",
+   text="Hand-written executable Gallina model of the whole optimisation pipeline (from_slice, all reductions incl. palette sorters, perform_reductions, evaluator, perform_trials, optimize_raw/png, output), replayed against the real code on every run under the recorded zlib oracle: byte-identical outputs, and no compressor call the model does not predict. Machine-checked theorems (Properties/C01.v): (1) per-pixel exactness of the sample mappings; (2) IMAGE LEVEL, every width/height/interlacing: 16->8, sub-byte expansion and reduction, RGB(A)->gray(A), alpha removal, ->indexed, indexed->channels, palette condensation, luma sort, palette reorders covering the used indices, the two co-occurrence palette sorters mzeng and battiato (connectivity of the co-occurrence graph; vertex colouring with a history argument over the complete edge list), Adam7 interlacing AND de-interlacing (the pass/row state machine of src/interlace.rs, bits and bytes variants) each keep a well-formed image at its meaning (Spec/Sem); PngImage::new's image means what the specification decodes from the IDAT stream (C01_parsed_image_means); (3) PIPELINE: perform_reductions keeps the baseline and every candidate, optimize_raw's choice, the filtered stream behind the emitted IDAT (all ten strategies) and finally the BYTES WRITTEN (decoded by the specification's whole-file decoder Spec/DecodeFile: strict container, IHDR, PLTE/tRNS, inflate, un-filtering, Adam7, colour) at the picture the input image means; (4) FILE TO FILE: from_slice reads a valid datastream the way the specification's whole-file decoder does (C01_input_parse_means) and optimize_from_memory returns the input bytes or a serialisation that the specification decodes to the INPUT FILE's picture (C01_file_to_file_partial); (5) THE FULL STATEMENT C01_file_to_file: optimize_from_memory e o bytes = Ok out -> spec_decode_png inflate out = Some pic, with the container side conditions DERIVED from the input (Proofs/ContainerOk.v) - for every option vector with the lossy switches off, every compressor, evaluator schedule and clock. Nothing is assumed about the reductions. Every image any reduction produces and every output file (also after 2-3 chained runs) is additionally decoded by the extracted specification and compared with the input at 16-bit RGBA.",
    design="DESIGN.md §3 C01",
-   note=BASE_NOTE + "Hypotheses named in the file-level theorems (hence the suffix _partial): the zlib oracle (inflate(deflate x)=x; the code's inflate is the specification's and returns bytes), container side conditions on what is written (chunk payloads < 2^31, no ancillary chunk named IEND/PLTE/tRNS/IDAT, encodable header fields) and validity of the input (one IHDR, at most one PLTE/tRNS, colour key within the sample range, size within usize). These are exercised per run by correspondence + specification oracle. zlib is an oracle (re-validated with Python zlib).",
+   note=BASE_NOTE + "Hypotheses of the full statement C01_file_to_file: the zlib oracle (inflate(deflate x)=x; the code's inflate is the specification's and returns bytes; the compressor never returns 2 GiB) and validity of the input (shorter than 2^31 - 9 bytes, one IHDR, at most one PLTE/tRNS, colour key within the sample range, size within usize); the theorems suffixed _partial additionally take the container side conditions as hypotheses. These are exercised per run by correspondence + specification oracle. zlib is an oracle (re-validated with Python zlib).",
    technique='Coq proof (image-level lifting theorems, finite byte tables by vm_compute over complete domains, pipeline invariant, filter/stream/file decode) + whole-pipeline model replay + extracted spec decoder as oracle'),
  "C03": dict(
    text='Machine-checked (Properties/C03.v): alpha-equivalence is an equivalence on pixels and pictures; IMAGE LEVEL (every size, interlaced or not): blackening of transparent pixels, alpha channel -> colour key with an unused colour, palette condensation with merged transparent entries and indexed->channels with alpha optimisation map a well-formed image that means pic to one that means an alpha-equivalent picture; PIPELINE: with alpha optimisation on or off every candidate of perform_reductions and the image optimize_raw chooses are alpha-equivalent to the input; FILTER STAGE (optimize_alpha inside filter_image, all five filter branches, line data threaded through the candidates of the heuristics): each rewritten scan line differs from the line only in the colour bytes of fully transparent pixels (C03_alpha_line), the stream filter_image writes with the optimisation on is decoded by the specification to an alpha-equivalent picture for all ten strategies and any Brute oracle (C03_filter_alpha_stream), and so is the stream compressed into the emitted IDAT (C03_emitted_stream_alpha_partial). The model is tied to the code differentially; every filtered stream and every --alpha output file is decoded by the extracted specification and must be alpha-equivalent to the input.',
    design="DESIGN.md §3 C03",
-   note=BASE_NOTE + 'FILE TO FILE (C03_file_to_file_partial) under the hypotheses of C01 (zlib oracle, container and input side conditions); nothing is assumed about the reductions.',
+   note=BASE_NOTE + 'FILE TO FILE (C03_file_to_file) under the hypotheses of C01 (zlib oracle, input validity); nothing is assumed about the reductions or about what is written.',
    technique='Coq proof (relational lifting of alpha-equivalence, alpha_scan invariant, palette normalisation) + differential correspondence + spec oracle (alpha-equivalence)'),
  "C14": dict(
    text="Machine-checked (Properties/C14.v): the COMPLETE decision table of preprocess_chunks (what happens to the iCCP chunk and which switches are turned off) as an equation, and its corollaries in the words of the property: "
@@ -33,6 +33,7 @@ CLAIMED = {
         "accepts it and reads back exactly that sequence, for every PngData with well-formed chunk names; the sequence is IHDR(13 bytes from the header) … single IDAT … IEND with PLTE/tRNS synthesised from the header before IDAT; CRC-32 fits 32 bits; "
         "the specification's WHOLE-FILE decoder (Spec/DecodeFile.v) reads the written file as the inflated IDAT content under exactly the header and palette/key of the written image (C02_output_decodes); "
         "the IDAT content of the emitted candidate (no assumption about the reductions) is the compressor's answer for a stream that the specification cuts into exactly the rows the header implies, each with a filter type 0..4, and that un-filters to the image data (C02_idat_content_partial). "
+        "THE WHOLE CALL: the container conditions of everything optimize_png writes follow from the parsed input (C02_container_side_conditions) and the file returned for a valid input is strictly parsed and decoded by the specification (C02_optimized_file_wellformed). "
         "Every output of every run (PNG, chunk-rich, APNG; all options incl. lossy, zopfli, force, strip) is validated by a strict validator written from the specification and decoded by the extracted spec; a constraint counts only if the input satisfied it.",
    design="DESIGN.md §3 C02",
    note=BASE_NOTE + "PARTIAL: the IDAT-content theorem is stated for runs without alpha rewriting (with -a: C03_emitted_stream_alpha_partial); that inflate undoes the compressor is the zlib oracle assumption; the input-relative ordering constraints of ancillary chunks are decided per run by the validator oracle. "
@@ -89,10 +90,10 @@ CLAIMED = {
    note=BASE_NOTE + "the frame-pixel theorem is under the zlib oracle assumption; every frame of every output is also decoded per run. F6 was repaired (fix 0e2fef8).",
    technique="Coq proof (induction over the frame list; byte-level round trip of fcTL) + model replay + per-frame spec decode"),
  "C11": dict(
-   text="Machine-checked (Properties/C11.v): the constructor never panics and accepts exactly the consistent tuples (iff); the created file is `output` of a pipeline candidate with the given dimensions, so the container/structure theorems of C02 and the policy theorems of C07/C14 apply to it. "
+   text="Machine-checked (Properties/C11.v): the constructor never panics and accepts exactly the consistent tuples (iff); the created file is `output` of a pipeline candidate with the given dimensions, so the container/structure theorems of C02 and the policy theorems of C07/C14 apply to it; PIXELS: the file created for a raw image that means pic is decoded by the specification's whole-file decoder to pic (alpha-equivalent under alpha optimisation) (C11_created_decodes). "
         "Generated consistent and inconsistent tuples with attached chunks / ICC profiles x options: model replay of the whole API, strict validation, and decode by the extracted specification against the raw samples.",
    design="DESIGN.md §3 C11",
-   note=BASE_NOTE + "pixel fidelity inherits C01's partial status (decided per run by the oracle). Indices outside a supplied palette are accepted by the API (not part of the property's rejection list). F7 repaired (fix 13eac94).",
+   note=BASE_NOTE + "pixel fidelity of the created file is proved (C11_created_decodes, zlib oracle) and decided per run by the oracle. Indices outside a supplied palette are accepted by the API (not part of the property's rejection list). F7 repaired (fix 13eac94).",
    technique="Coq proof (iff characterisation of acceptance; provenance) + model replay + spec oracle"),
  "C12": dict(
    text="Machine-checked (Properties/C12.v) on a plan + executor model of `optimize` over an abstract file system with a fault plan (the k-th operation fails, or the process is killed at it), for every file system, optimiser behaviour, routing and fault: "
